@@ -47,7 +47,7 @@ var initLikeFuncs = []string{"sigs.k8s.io/kustomize/kyaml/openapi.initSchema"}
 
 type gAccess struct {
 	pkg, fn, v string
-	kind       string // ARead | AWrite | AMapRead | AMapWrite | ARefUse | AEscape | AUnbalanced
+	kind       string // ARead | AWrite | AMapRead | AMapRange | AMapWrite | ARefUse | AEscape | AUnbalanced
 	ctx        []string
 	reach      bool
 	ord        int
@@ -689,7 +689,9 @@ func genGlobals(repo string) (string, error) {
 				}
 			case *ssa.Range:
 				if g, p, ok := through(x.X); ok {
-					emit(ins, ctx, g, p+"[]", "AMapRead")
+					// iteration over a map held in a global: the ORDER is randomised per run (a separate kind, so that an
+					// obligation can forbid it where the result must not depend on it)
+					emit(ins, ctx, g, p+"[]", "AMapRange")
 				}
 			case *ssa.MapUpdate:
 				if g, p, ok := through(x.Map); ok {
